@@ -637,8 +637,26 @@ func (ex *Exec) hash64(fn string, bs []*term.T) *term.T {
 
 // hashEq rewrites an equality between hash results into equality of the hashed inputs.
 func (ex *Exec) hashEq(a, b *term.T) *term.T {
+	// fresh 32-bit random values (PIT tokens) are assumed pairwise distinct (the generator retries on collision)
+	if a.W == 32 && a.Op == term.OSym && b.Op == term.OSym && strings.HasPrefix(a.Name, "rand.u32") && strings.HasPrefix(b.Name, "rand.u32") {
+		return term.Bool(a.Name == b.Name)
+	}
 	if a.W != 64 || len(ex.env.hashApps) == 0 {
 		return nil
+	}
+	// hash(name)+nonce keys (dead nonce list): token + small offset on both sides
+	if ta, oa := splitTok(a); ta != nil {
+		if tb, ob := splitTok(b); tb != nil && (oa != nil || ob != nil) {
+			if oa == nil {
+				oa = term.Const(64, 0)
+			}
+			if ob == nil {
+				ob = term.Const(64, 0)
+			}
+			if h := ex.hashEq(ta, tb); h != nil {
+				return term.BAnd(h, term.Eq(oa, ob))
+			}
+		}
 	}
 	isTok := func(t *term.T) bool { return t.Op == term.OSym && strings.HasPrefix(t.Name, "h.") }
 	if !isTok(a) && !isTok(b) {
@@ -926,4 +944,22 @@ func init() {
 		}
 		return math.Float64frombits(t.C)
 	})
+}
+
+// splitTok decomposes t as (hash token or concrete hash) + offset below 2^32.
+func splitTok(t *term.T) (*term.T, *term.T) {
+	isTok := func(x *term.T) bool { return x.Op == term.OSym && strings.HasPrefix(x.Name, "h.") }
+	if isTok(t) {
+		return t, nil
+	}
+	if t.Op == term.OAdd {
+		for i := 0; i < 2; i++ {
+			if isTok(t.A[i]) {
+				if _, hi := t.A[1-i].Range(); hi < 1<<32 {
+					return t.A[i], t.A[1-i]
+				}
+			}
+		}
+	}
+	return nil, nil
 }
